@@ -64,3 +64,16 @@ pub fn short_loc(loc: &str) -> String {
         None => loc.to_string(),
     }
 }
+
+/// Line-number-free key for known-finding signatures: "<file>|<message with digits squashed>".
+/// (Unrelated edits shift line numbers; the message of an assertion identifies it.)
+pub fn panic_key(pi: &PanicInfo) -> String {
+    let loc = short_loc(&pi.location);
+    let file = loc.rsplit_once(':').map_or(loc.as_str(), |x| x.0).to_string();
+    let mut msg: String = pi.message.chars().take(80).collect();
+    // assertion messages with formatted values ("left: 5 right: 7") vary per input: keep the head
+    if let Some(i) = msg.find('\n') {
+        msg.truncate(i);
+    }
+    format!("{file}|{msg}")
+}
